@@ -157,7 +157,11 @@ def collision_jobs():
     msgs = [message('Resp', [field('ok', 1, 'bool')]),
             message('Both', [field('local', 1, Q('Local')), field('money', 2, f'.{op1}.Money'), field('stamp', 3, f'.{op2}.Stamp'),
                              field('common', 4, 'string'), field('common_pb2', 5, 'string'), field('main_service', 6, 'string'),
-                             field('timestamp_pb2', 7, 'string'), field('ts', 8, '.google.protobuf.Timestamp')]),
+                             field('timestamp_pb2', 7, 'string'), field('ts', 8, '.google.protobuf.Timestamp'),
+                             field('lines', 9, Q('Both.Line'), repeated=True)],
+                    # a *nested* message that uses the aliased modules as well
+                    nested=[message('Line', [field('local', 1, Q('Local')), field('money', 2, f'.{op1}.Money'),
+                                             field('stamp', 3, f'.{op2}.Stamp'), field('note', 4, 'string')])]),
             message('Common', [field('v', 1, 'string')]), message('MainService', [field('v', 1, 'string')])]
     meths = [method('EchoBoth', Q('Both'), Q('Both'), http=('post', '/v1/both', '*'), sigs=['local,money,stamp,common', 'common_pb2,main_service,timestamp_pb2,ts']),
              method('EchoCommon', Q('Common'), Q('MainService'), http=('post', '/v1/common', '*'))]
@@ -182,7 +186,10 @@ def collision_jobs():
     sub_common = file('acme/kw/v1/sub/common.proto', sp, messages=[message('Shared', [field('sub_value', 2, 'string')])])
     # Alpha also has a field named like the module, followed by enum-typed fields that need the (aliased) module again
     msgs = [message('Alpha', [field('name', 1, 'string'), field('item', 2, Q('Shared')), field('common', 3, 'string'),
-                              field('kind', 4, 'enum:' + Q('SharedKind')), field('max_kind', 5, 'enum:' + Q('SharedKind'))]),
+                              field('kind', 4, 'enum:' + Q('SharedKind')), field('max_kind', 5, 'enum:' + Q('SharedKind')),
+                              field('rows', 6, Q('Alpha.Row'), repeated=True)],
+                    # a nested message that needs the aliased module as well
+                    nested=[message('Row', [field('item', 1, Q('Shared')), field('kind', 2, 'enum:' + Q('SharedKind')), field('n', 3, 'int32')])]),
             message('Beta', [field('name', 1, 'string'), field('item', 2, f'.{sp}.Shared')])]
     main = file('acme/kw/v1/main_service.proto', P, messages=msgs, services=[service('Kw', [
         method('EchoAlpha', Q('Alpha'), Q('Alpha'), http=('post', '/v1/alpha', '*')),
@@ -197,6 +204,29 @@ def collision_jobs():
              dict(id='collision|same-basename-subpackage-type', position='collision', word='common', rpc='EchoBeta', py='echo_beta', req=Q('Beta'),
                   resp=Q('Beta'), dict_request=True)]
     jobs.append(dict(id='collision-subpackage', req=req.SerializeToString(), probe='mc.probes.reserved',
+                     probe_args=dict(package=names.import_package(P), proto_package=P, cells=cells), _position='collision',
+                     _words=['common'], _cells=cells))
+    # a dependency package that is itself a proto-plus library (option proto-plus-deps) and has a module of the same base name as
+    # a file of the API: its types are imported under an alias, too
+    pd = 'acme.catalog.v1'
+    cat = file('acme/catalog/v1/common.proto', pd, messages=[message('Tag', [field('label', 1, 'string'), field('weight', 2, 'int32')])])
+    cat.dependency.extend(std)
+    pre_req = request([cat], 'transport=grpc,autogen-snippets=false')
+    desc.gate(pre_req)
+    local = file('acme/kw/v1/common.proto', P, messages=[message('Local', [field('x', 1, 'string')])])
+    msgs = [message('Tagged', [field('local', 1, Q('Local')), field('tag', 2, f'.{pd}.Tag'), field('common', 3, 'string'),
+                               field('tags', 4, f'.{pd}.Tag', repeated=True), field('parts', 5, Q('Tagged.Part'), repeated=True)],
+                    nested=[message('Part', [field('tag', 1, f'.{pd}.Tag'), field('local', 2, Q('Local'))])])]
+    main = file('acme/kw/v1/main_service.proto', P, messages=msgs, services=[service('Kw', [
+        method('EchoTagged', Q('Tagged'), Q('Tagged'), http=('post', '/v1/tagged', '*'), sigs=['local,tag,common'])])])
+    local.dependency.extend(std)
+    main.dependency.extend(std + [cat.name, local.name])
+    req = request([local, main], f'transport=grpc+rest,autogen-snippets=false,proto-plus-deps={pd}', extra_dep_files=[cat])
+    desc.gate(req)
+    cells = [dict(id='collision|proto-plus-dependency-module', position='collision', word='common', rpc='EchoTagged', py='echo_tagged',
+                  req=Q('Tagged'), resp=Q('Tagged'))]
+    jobs.append(dict(id='collision-proto-plus-deps', req=req.SerializeToString(), probe='mc.probes.reserved',
+                     pre=[dict(id='c12-pp-pre', req=pre_req.SerializeToString())],
                      probe_args=dict(package=names.import_package(P), proto_package=P, cells=cells), _position='collision',
                      _words=['common'], _cells=cells))
     return jobs
